@@ -13,6 +13,7 @@ import (
 	"runtime/debug"
 	"strings"
 	"sync"
+	"time"
 )
 
 // Mine reports whether item i of an enumeration belongs to this shard.
@@ -149,6 +150,68 @@ func Inflight(target string, input []byte) {
 	buf = append(buf, input...)
 	_ = inflightF.Truncate(0)
 	_, _ = inflightF.WriteAt(buf, 0)
+	armWatchdog()
+}
+
+// A case that does not come back: the in-flight record is already on disk, so the process ends itself (exit status 3)
+// once one and the same record has been in flight for watchdogAfter, and the driver re-runs exactly that input in a
+// fresh process under its own, longer budget before calling it a violation. This only shortens the wait for the test
+// deadline; it is not a verdict by itself.
+const watchdogAfter = 240 * time.Second
+
+var (
+	watchdogMu  sync.Mutex
+	watchdogGen uint64
+	watchdogOn  bool
+)
+
+// Returned tells the watchdog that the input recorded by Inflight has come back.
+func Returned() {
+	watchdogMu.Lock()
+	watchdogRunning = false
+	watchdogMu.Unlock()
+}
+
+var watchdogRunning bool
+
+func armWatchdog() {
+	watchdogMu.Lock()
+	watchdogGen++
+	watchdogRunning = true
+	if !watchdogOn {
+		watchdogOn = true
+		go func() {
+			var last uint64
+			var since time.Time
+			for {
+				time.Sleep(5 * time.Second)
+				watchdogMu.Lock()
+				g := watchdogGen
+				running := watchdogRunning
+				watchdogMu.Unlock()
+				if g != last || !running {
+					last, since = g, time.Now()
+					continue
+				}
+				if g != 0 && inflightSize() > 0 && time.Since(since) > watchdogAfter {
+					fmt.Fprintf(os.Stderr, "watchdog: one input has been in flight for more than %v; ending the process so that the driver can re-run it alone\n", watchdogAfter)
+					os.Exit(3)
+				}
+			}
+		}()
+	}
+	watchdogMu.Unlock()
+}
+
+func inflightSize() int64 {
+	if inflightF == nil {
+		return 0
+	}
+	st, err := inflightF.Stat()
+	if err != nil {
+		return 0
+	}
+	return st.Size()
 }
 
 // InflightDone clears the in-flight record (called when the test function ends normally).
